@@ -957,8 +957,11 @@ def pncexpr(expr, ifile, verbose=0):
         # as in PseudoNetCDFFile.eval: a result that is (a view of) a
         # variable of the input gets its own data, and the dimensions a
         # result is stored with must describe its shape
+        # (unary masked operations, 'C = -A', hand on the operand's mask)
         if isinstance(val, np.ndarray) and any([
-            np.may_share_memory(val, v) for v in filevars.values()
+            np.may_share_memory(val, v) or np.may_share_memory(
+                np.ma.getmask(val), np.ma.getmask(v))
+            for v in filevars.values()
             if isinstance(v, np.ndarray)
         ]):
             val = val.copy()
